@@ -22,9 +22,9 @@ from py7zr.io import NullIOFactory
 EXT = [0, 1, 2, 3, 7, 8, 15, 16, 127, 128, 255, 256, 0x3FFF, 0x4000, 0xFFFF, 0x10000, (1 << 21) - 1, 1 << 21, (1 << 28) - 1, 1 << 28,
        (1 << 31) - 1, 1 << 31, (1 << 32) - 1, 1 << 32, (1 << 35), (1 << 42) - 1, 1 << 49, (1 << 56) - 1, 1 << 56, (1 << 63) - 1, 1 << 63,
        (1 << 64) - 1]
-CALLS = ["getnames", "list", "archiveinfo", "needs_password", "test", "testzip", "extractall_null", "extractall_path", "extract_first",
+CALLS = ["getnames", "list", "archiveinfo", "needs_password", "test", "testzip", "extractall_null", "extractall_limited", "extractall_path", "extract_first",
          "extract_last", "reset", "getinfo"]
-DECODING = {"testzip", "extractall_null", "extractall_path", "extract_first", "extract_last"}
+DECODING = {"testzip", "extractall_null", "extractall_limited", "extractall_path", "extract_first", "extract_last"}
 MEM_LIMIT_KB = 512 * 1024
 COUNT_NAMES = {"numfiles", "numpackstreams", "numfolders", "numunpackstream", "numcoders", "packsize", "unpacksize", "subsize", "packpos"}
 COUNT_VALUES = [EXT.index(x) for x in (1 << 21, 1 << 28, (1 << 32) - 1, 1 << 49, (1 << 63) - 1)]
@@ -340,6 +340,13 @@ def run_calls(data, pw, calls, how, workdir):
                     z.testzip()
                 elif c == "extractall_null":
                     z.extractall(factory=NullIOFactory())
+                elif c == "extractall_limited":
+                    # a size-limited in-memory writer (returns 0 from write() once full), members delivered in 48-byte pieces
+                    from vlib import patches as _p
+                    from py7zr.io import BytesIOFactory as _BF
+
+                    with _p.memory_limit(48):
+                        z.extractall(factory=_BF(40))
                 elif c == "extractall_path":
                     d = os.path.join(workdir, "o%d" % len(res))
                     z.extractall(d)
@@ -426,6 +433,11 @@ class C05(Check):
             yield {"kind": "special", "what": "biglink600", "coder": "copy", "crc": True, "seed": "copy", "ops": [], "calls": ["getnames", "extractall_path"], "pw": "none",
                    "how": "path"}
         yield from self.sweep(env, 1 << 20)
+        # every seed, unmodified, through the size-limited writer
+        for name in seed_names():
+            j += 1
+            if env.mine(j):
+                yield {"kind": "tree", "seed": name, "tree": "inner", "hdr": None, "ops": [], "calls": ["extractall_limited", "reset", "extractall_limited"], "pw": "right", "how": "stream" if j % 2 else "path"}
         # explicit histories the property names: extract twice without reset, testzip after extractall, on every seed
         i = 0
         for name in seed_names():
